@@ -4,6 +4,7 @@ CONSTANTS
  Clients = {1, 2}
  Creators = {1}
  Subscribers = {2}
+ OtherType = {}
  MaxOps = 1
  MaxSends = 4
  MaxServes = 2
